@@ -151,7 +151,7 @@ def call_builtin(ip, fn, args, kwargs, lineno):
                 r = Min(r, x) if fn is min else Max(r, x)
         return r
     if fn is ord:
-        return ord(args[0])
+        return args[0] if is_sym(args[0]) else ord(args[0])      # a symbolic character is represented by its code
     if fn is chr:
         return chr(args[0])
     if fn is abs:
@@ -273,7 +273,9 @@ def call_np(ip, name, args, kwargs, lineno):
             return x
         a = as_arr(ip, x)
         if name == "array" and isinstance(x, (SArr, SArr2)):
-            return M.map1(lambda v: v, a)       # copy
+            a = M.map1(lambda v: v, a)       # copy
+        if kwargs.get("dtype") == ("np", "uint8") and isinstance(a, SArr):
+            a.dtype = "uint8"
         return a
     if name == "frombuffer":
         return args[0]
